@@ -389,6 +389,22 @@ fn need_alloc_api() {
         let _ = hpke::aead::AeadCtxS::<hpke::aead::ChaCha20Poly1305, hpke::kdf::HkdfSha256, K>::seal;
         let _ = hpke::aead::AeadCtxR::<hpke::aead::ChaCha20Poly1305, hpke::kdf::HkdfSha256, K>::open;
     }
+    #[cfg(all(not(feature = "x25519"), not(feature = "p256"), feature = "p384"))]
+    {
+        type K = hpke::kem::DhP384HkdfSha384;
+        let _ = hpke::single_shot_seal::<hpke::aead::ChaCha20Poly1305, hpke::kdf::HkdfSha256, K, DetRng>;
+        let _ = hpke::single_shot_open::<hpke::aead::ChaCha20Poly1305, hpke::kdf::HkdfSha256, K>;
+        let _ = hpke::aead::AeadCtxS::<hpke::aead::ChaCha20Poly1305, hpke::kdf::HkdfSha256, K>::seal;
+        let _ = hpke::aead::AeadCtxR::<hpke::aead::ChaCha20Poly1305, hpke::kdf::HkdfSha256, K>::open;
+    }
+    #[cfg(all(not(feature = "x25519"), not(feature = "p256"), not(feature = "p384"), feature = "p521"))]
+    {
+        type K = hpke::kem::DhP521HkdfSha512;
+        let _ = hpke::single_shot_seal::<hpke::aead::ChaCha20Poly1305, hpke::kdf::HkdfSha256, K, DetRng>;
+        let _ = hpke::single_shot_open::<hpke::aead::ChaCha20Poly1305, hpke::kdf::HkdfSha256, K>;
+        let _ = hpke::aead::AeadCtxS::<hpke::aead::ChaCha20Poly1305, hpke::kdf::HkdfSha256, K>::seal;
+        let _ = hpke::aead::AeadCtxR::<hpke::aead::ChaCha20Poly1305, hpke::kdf::HkdfSha256, K>::open;
+    }
     #[cfg(all(not(feature = "x25519"), feature = "p256"))]
     {
         type K = hpke::kem::DhP256HkdfSha256;
